@@ -7,6 +7,10 @@ from .. import gen, contracts
 from . import c02
 
 PROP = "C09"
+LEVEL_TEXT = "Explicit 'rows that reach column j' oracle for column sums / means / counts / get_column_values over every dtype branch, very different row lengths, lazy receivers, 64-bit values beyond 2**63 (magnitude-relative bound). Exploration."
+LEVEL_NOTE = "trusts numpy 2.x, CPython (copy.copy, slice semantics, big ints) and the reference model in rtmon/props/c09.py; decides the executions it produces, nothing more"
+TECHNIQUE = 'runtime monitoring: reference-model oracle (explicit column loop)'
+DESIGN_REF = "DESIGN.md sections 0, 5 (C09), 7"
 RULE = ("case = (row lengths with >= 1 non-empty row, dtype, flat values, operation in sum(axis=0) / np.sum / mean(axis=0) / col_counts / "
         "get_column_values(j), receiver kind); oracle = loop over the rows that reach column j; distinct = hash of the case; "
         "non-trivial = >= 2 rows of different lengths")
